@@ -316,6 +316,7 @@ func (ex *Exec) chanClosedTerm(ch Val) *Term {
 
 func (ex *Exec) chanRecv(fr *Frame, x *ssa.UnOp, ch Val) Val {
 	ex.cancellableWait(fr, x, "receive", []Val{ch})
+	ex.noWait(fr, x, []Val{ch})
 	et := under(x.X.Type()).(*types.Chan).Elem()
 	v := ex.freshVal(et, "recv")
 	if ex.isCloseOnly(x.X) {
@@ -366,10 +367,33 @@ func (ex *Exec) cancellableWait(fr *Frame, ins ssa.Instruction, what string, cha
 	ex.oblige("cancellable", ex.siteOf(ins, ""), ins.Pos(), "this blocking "+what+" also waits on "+strings.Join(texts, " or "), cond)
 }
 
+// noWait: `nowait c` clauses: none of the channels of the select / receive at ins is c.
+func (ex *Exec) noWait(fr *Frame, ins ssa.Instruction, chans []Val) {
+	if ex.contract == nil || fr.fn != ex.root || len(ex.contract.NoWait) == 0 || ex.dry != nil {
+		return
+	}
+	ts := ex.ts
+	for i, cl := range ex.contract.NoWait {
+		c := ex.eval1(cl.E, ex.envFor(fr, nil))
+		cond := ts.True()
+		for _, ch := range chans {
+			cond = ts.And(cond, ts.Not(ex.valEq(ch, c, nil)))
+		}
+		ex.oblige("nowait", ex.siteOf(ins, fmt.Sprintf("%03d", i)), ins.Pos(), "this channel operation does not involve "+cl.Text, cond)
+	}
+}
+
 func (ex *Exec) selectStmt(fr *Frame, x *ssa.Select) Val {
 	// nondeterministic choice of a ready case; received values unconstrained
 	ex.note("select: nondeterministic choice among cases")
 	ts := ex.ts
+	{
+		var all []Val
+		for _, s := range x.States {
+			all = append(all, ex.reg(fr, s.Chan))
+		}
+		ex.noWait(fr, x, all)
+	}
 	if x.Blocking {
 		var chans []Val
 		for _, s := range x.States {
